@@ -208,6 +208,7 @@ def inlined(facts, body, depth=0, stack=(), t1=True, t2=True, same_type=None):
         changed = True
     if t2 and desugar_adaptors(facts, body, blocks, locals_, depth, stack, t1):
         changed = True
+        unroll_array_loops(blocks, locals_)      # `[a, b].into_iter().for_each(f)` has just become a loop over the literal
     if not changed:
         res = body
     else:
@@ -262,6 +263,7 @@ def unroll_array_loops(blocks, locals_, max_len=4):
         it_locals = {t['dest']['local']}
         head = None
         cur = t['target']
+        pre = None      # last block of the chain between the into_iter call and the loop head (its statements must be kept)
         for _ in range(4):
             b2 = blocks[cur]
             for st in b2['stmts']:
@@ -273,6 +275,7 @@ def unroll_array_loops(blocks, locals_, max_len=4):
                 head = cur
                 break
             if t2['k'] == 'goto':
+                pre = cur
                 cur = t2['target']
                 continue
             break
@@ -332,7 +335,11 @@ def unroll_array_loops(blocks, locals_, max_len=4):
             lo, hi = off + 1, off + 1 + len(body_blocks)
             for bi in range(lo, hi):
                 blocks[bi]['term'] = _retarget(blocks[bi]['term'], {('HEAD',): nxt}, None)
-        blk['term'] = {'k': 'goto', 'target': entries[0]}
+        if pre is None:
+            blk['term'] = {'k': 'goto', 'target': entries[0]}
+        else:
+            blk['term'] = {'k': 'goto', 'target': t['target']}
+            blocks[pre]['term'] = {'k': 'goto', 'target': entries[0]}
         # the array itself is gone: its elements are handed to the copies directly (they must not be consumed twice)
         agg_stmt = ds[0][2]
         if once_call is not None:
@@ -596,6 +603,71 @@ _ONE_INSERT = {'std::collections::BTreeMap': ('insert', 2), 'std::collections::H
                'std::vec::Vec': ('push', 1), 'std::collections::VecDeque': ('push_back', 1)}
 
 
+CF = 'std::ops::ControlFlow'
+
+
+def _cf_agg(variant, vidx, ops):
+    return {'k': 'agg', 'agg': 'adt', 'path': CF, 'variant': variant, 'vidx': vidx, 'is_enum': True, 'fields': ['0'] if ops else [], 'ops': ops}
+
+
+def _question_mark(blocks, locals_, blk, t):
+    """The two calls the `?` operator expands to, written as the `match` they are, for Option and Result:
+    `Try::branch(x)` = `match x { Some(v) / Ok(v) => Continue(v), None => Break(None), Err(e) => Break(Err(e)) }`,
+    `FromResidual::from_residual(r)` = `None` / `Err(From::from(e))`."""
+    c = t['callee']
+    st = c.get('self_ty') or {}
+    owner = st.get('path')
+    if owner not in (OPT, RES) or len(t['args']) != 1 or t.get('target') is None:
+        return False
+    B = _Builder(blocks, locals_, t['span'])
+    a0 = t['args'][0]
+    if c.get('name') == 'branch' and c.get('trait') == 'std::ops::Try':
+        if a0.get('k') not in ('move', 'copy') or a0['place']['proj']:
+            return False
+        x = a0['place']['local']
+        d0 = B.local(ISIZE)
+        blk['stmts'].append(B.assign(_pl(d0), {'k': 'discr', 'place': _pl(x)}))
+        good, bad = B.block(), B.block()
+        if owner == OPT:
+            blk['term'] = {'k': 'switch', 'discr': _mv(d0), 'discr_ty': ISIZE, 'targets': [[1, good], [0, bad]], 'otherwise': bad, 'span': t['span']}
+            blocks[good]['stmts'].append(B.assign(t['dest'], _cf_agg('Continue', 0, [_mv(x, list(SOME_P))])))
+            tmp = B.local()
+            blocks[bad]['stmts'].append(B.assign(_pl(tmp), _agg(OPT, 'None', 0, [])))
+            blocks[bad]['stmts'].append(B.assign(t['dest'], _cf_agg('Break', 1, [_mv(tmp)])))
+        else:
+            blk['term'] = {'k': 'switch', 'discr': _mv(d0), 'discr_ty': ISIZE, 'targets': [[0, good], [1, bad]], 'otherwise': bad, 'span': t['span']}
+            blocks[good]['stmts'].append(B.assign(t['dest'], _cf_agg('Continue', 0, [_mv(x, list(OK_P))])))
+            tmp = B.local()
+            blocks[bad]['stmts'].append(B.assign(_pl(tmp), _agg(RES, 'Err', 1, [_mv(x, list(ERR_P))])))
+            blocks[bad]['stmts'].append(B.assign(t['dest'], _cf_agg('Break', 1, [_mv(tmp)])))
+        blocks[good]['term'] = {'k': 'goto', 'target': t['target']}
+        blocks[bad]['term'] = {'k': 'goto', 'target': t['target']}
+        return True
+    if c.get('name') == 'from_residual' and c.get('trait') == 'std::ops::FromResidual':
+        subs = c.get('substs') or []
+        res_ty = subs[1] if len(subs) > 1 else {}
+        if res_ty.get('path') != owner:
+            return False        # a residual of another type (`Option?` in a function returning Result through some adapter)
+        if owner == OPT:
+            blk['stmts'].append(B.assign(t['dest'], _agg(OPT, 'None', 0, [])))
+            blk['term'] = {'k': 'goto', 'target': t['target']}
+            return True
+        if a0.get('k') not in ('move', 'copy') or a0['place']['proj']:
+            return False
+        r = a0['place']['local']
+        same = len(st.get('args') or []) > 1 and len(res_ty.get('args') or []) > 1 and st['args'][1].get('s') == res_ty['args'][1].get('s')
+        if same:
+            blk['stmts'].append(B.assign(t['dest'], _agg(RES, 'Err', 1, [_mv(r, list(ERR_P))])))
+            blk['term'] = {'k': 'goto', 'target': t['target']}
+        else:
+            conv = B.local()
+            wrap = B.block([B.assign(t['dest'], _agg(RES, 'Err', 1, [_mv(conv)]))], {'k': 'goto', 'target': t['target']})
+            blk['term'] = B.call(_pseudo_callee('from', 'std::convert::From', (st.get('args') or [None, None])[1], 'std::convert::From::from'),
+                                 [_mv(r, list(ERR_P))], conv, wrap)
+        return True
+    return False
+
+
 def _extend_with_option(blocks, locals_, blk, t):
     """`coll.extend(opt)` with `opt: Option<T>` is `if let Some(x) = opt { coll.insert(x) }` (for a map: insert(x.0, x.1)):
     an Option iterates over zero or one item and std's Extend for these collections inserts each item in turn."""
@@ -642,6 +714,11 @@ def desugar_combinators(facts, body, blocks, locals_, depth, stack, t1=True):
         t = blk['term']
         i += 1
         if blk['cleanup'] or t['k'] != 'call' or t.get('target') is None or not t.get('callee') or not t['args']:
+            continue
+        if _question_mark(blocks, locals_, blk, t):
+            changed = True
+            guard += 1
+            i = 0
             continue
         if _extend_with_option(blocks, locals_, blk, t):
             changed = True
